@@ -280,6 +280,11 @@ class Ctx:
             await close_coro_fn()
         except Exception:
             pass
+        except asyncio.CancelledError:
+            # nobody cancelled this task: a CancelledError out of a second close is the close path's own (e.g. a shared
+            # future cancelled by the first, cancelled, close)
+            self.w.log("second_close", "CancelledError")
+            return False
         return self.w.now == t0 and self.w.counters["loop_iterations"] - n0 <= 8
 
 
